@@ -2,6 +2,7 @@ package props
 
 import (
 	"fmt"
+	"strings"
 
 	"verif/harness/hx"
 )
@@ -76,6 +77,19 @@ func c14MisplacedCases(yield func(c14Case) bool) {
 			}
 		}
 	}
+	// submodules of the corpus loaded on their own, as they are and announced as modules
+	loadCorpus()
+	for _, f := range corpusFiles {
+		if !strings.Contains(f.Text, "belongs-to") {
+			continue
+		}
+		if !yield(c14Case{Kind: "submodule-alone", Dir: f.Dir, Text: f.Text, Base: f.Dir + "/" + f.Name}) {
+			return
+		}
+		if !yield(c14Case{Kind: "submodule-as-module", Dir: f.Dir, Text: strings.Replace(f.Text, "submodule", "module", 1), Base: f.Dir + "/" + f.Name}) {
+			return
+		}
+	}
 	// include / import shapes
 	sub := func(name, body string) string {
 		return "submodule " + name + " { belongs-to mi { prefix mi; } " + body + " }"
@@ -99,7 +113,7 @@ func c14MisplacedCases(yield func(c14Case) bool) {
 var c14Misplaced = hx.Register(&hx.Check[c14Case]{
 	Name:    "c14-misplaced",
 	Journal: true,
-	Rule:    "statements the grammar accepts in places where they do not apply: every deviate kind (add / replace / delete, also several in one deviation, not-supported once and twice) x 17 property sets x 23 targets (container, list, leaf, leaf-list, choice, case, anydata, anyxml, rpc, input, output, notification, leaves inside them, unknown and malformed paths); 10 kinds of augment content into each of those targets; refine of 11 property sets on 13 kinds of node; includes that name themselves, form cycles, nest, form a diamond, repeat, name a module; a self import; enumerated completely; every case is non-trivial",
+	Rule:    "statements the grammar accepts in places where they do not apply: every deviate kind (add / replace / delete, also several in one deviation, not-supported once and twice) x 17 property sets x 23 targets (container, list, leaf, leaf-list, choice, case, anydata, anyxml, rpc, input, output, notification, leaves inside them, unknown and malformed paths); 10 kinds of augment content into each of those targets; refine of 11 property sets on 13 kinds of node; corpus submodules loaded on their own and announced as modules; includes that name themselves, form cycles, nest, form a diamond, repeat, name a module; a self import; enumerated completely; every case is non-trivial",
 	Run: func(c c14Case, o *hx.Obs) {
 		o.Class("kind=%s", c.Kind)
 		o.NonTrivial()
